@@ -167,7 +167,14 @@ func (s *ScanMethod) ProcessPacketData(data []byte, _ *gopacket.CaptureInfo) (er
 }
 
 func validPacket(decoded []gopacket.LayerType) bool {
-	return len(decoded) == 3 || (len(decoded) == 2 && decoded[0] == layers.LayerTypeIPv4)
+	// check layer types, not only their number: with nested IPv4 (IP-in-IP)
+	// the number of decoded layers can match while the transport layer
+	// was not decoded from this packet at all
+	n := len(decoded)
+	if n < 2 || decoded[n-2] != layers.LayerTypeIPv4 || decoded[n-1] != layers.LayerTypeTCP {
+		return false
+	}
+	return n == 2 || (n == 3 && decoded[0] == layers.LayerTypeEthernet)
 }
 
 type PacketFiller struct {
